@@ -14,7 +14,7 @@ VARIABLES l, g0, den0, viol, drift, stats
 vars == <<l, g0, den0, viol, drift, stats>>
 Init == l = 1 /\ g0 = EmptyG /\ den0 = <<>> /\ viol = <<>> /\ drift = <<>>
         /\ stats = [hosts |-> 0, steps |-> 0, runs |-> 0, saved |-> 0, nontrivial |-> 0, l1same |-> 0]
-SameUpToNew(spec, impl, old) ==
+SameUpToNew3(spec, impl, old) ==
   LET ns == spec.vs \ old
       ni == impl.vs \ old
   IN /\ Cardinality(ns) = Cardinality(ni) /\ spec.vs \cap old = impl.vs \cap old
@@ -33,7 +33,7 @@ Step(e) ==
                ok == SumDen(terms) = den0
                d == [kind |-> e.decomp.kind, vs |-> e.decomp.vs]
                spec == ApplyDecomp(g0, d)
-               same == Len(spec) = Len(terms) /\ \A i \in 1..Len(terms) : SameUpToNew(spec[i], terms[i], g0.vs)
+               same == Len(spec) = Len(terms) /\ \A i \in 1..Len(terms) : SameUpToNew3(spec[i], terms[i], g0.vs)
            IN /\ viol' = IF ok THEN viol ELSE Append(viol, <<l, "StepSumOK", e.decomp.kind, e.via>>)
               /\ drift' = IF same THEN drift ELSE Append(drift, <<l, "ApplyDecomp", e.decomp.kind>>)
               /\ stats' = [stats EXCEPT !.steps = @ + 1, !.nontrivial = @ + 1, !.l1same = @ + (IF same THEN 1 ELSE 0)]
